@@ -48,21 +48,36 @@ RULE = ("corpus of adversarial structures (D4/D13 witnesses, wide lists 10..13 a
         "shuffled key orders, non-flattenable dicts (colliding str(), tuple/float/None/bytes keys), aliased leaves; each "
         "structure is flattened and inflated directly, after SnapshotMetadata.to_yaml/from_yaml, with both dicts "
         "reordered, and embedded among entries of other prefixes; perturbed manifests (dropped leaves / entries / keys, "
-        "added and duplicated keys, changed container kind, extra tokens) are compared with the model including the "
-        "error outcome. Thorough tier adds every dict/OrderedDict with <=3 keys (ordered) over a 14-key adversarial "
-        "alphabet x 3 value shapes. A case is non-trivial when it contains at least one flattened container with a "
-        "key or item; distinct by content hash.")
+        "added and duplicated keys, changed container kind, extra tokens, a leaf stored at a container's path) are compared "
+        "including the error outcome. Every flatten / inflate case is evaluated twice inside coqc: against the hand model "
+        "and against the terms generated from flatten.py in this run (the leaf-at-a-container-path cases against the "
+        "generated inflate only: the hand model does not describe them). _entry_to_container and _populate_container are "
+        "run directly on random entries (repeated / 1-vs-True keys) and token sets against the generated terms. Thorough "
+        "tier adds every dict/OrderedDict with <=3 keys (ordered) over a 14-key adversarial alphabet x 3 value shapes. A "
+        "case is non-trivial when it contains at least one flattened container with a key or item; distinct by content hash.")
 TRUSTED = [
     "Coq 8.16.1 kernel and its vm_compute VM (no native_compute)",
-    "hand-written model coq/model/Flatten.v tied to the code by differential runs (this harness) and, for _encode and "
-    "_should_flatten_dict, by translator/gen_flatten.py + proofs/FlattenInst.v (generated definition = model definition)",
-    "translator/gen_flatten.py (Python ast -> Gallina, fail closed), harness/props/C15.py generators/canonicalisation, lib/tocoq.py",
-    "CPython str(int), int(str), dict ordering/equality, urllib.parse.unquote and json are runtime: modelled and compared on "
-    "every run, not verified",
+    "translator/gen_flatten.py (Python ast -> Gallina, fail closed; registered twice: gen_flatten -> gen/FlattenGen.v for "
+    "_encode/_should_flatten_dict, gen_flatten_rec -> gen/FlattenRecGen.v for _flatten, flatten, _entry_to_container, "
+    "_populate_container, inflate translated statement by statement) and the Python vocabulary it targets, "
+    "coq/model/FlattenPy.v: insertion-ordered dicts (a store to an existing key keeps its position), type(x) == T vs "
+    "isinstance, exceptions as None, stable sorted(), mutable containers as a heap keyed by path with references "
+    "(RCont path) read back by `resolve`; the class tests on entries are equality because the translator checks in "
+    "manifest.py that ListEntry/DictEntry/OrderedDictEntry derive from Entry directly",
+    "coq/model/FlattenGenObs.v: the fuel given to the generated _flatten (nesting depth + 1) and reading the reference the "
+    "generated inflate returns back as a value",
+    "hand model coq/model/Flatten.v: its flatten / inflate / populate are no longer trusted (the generated terms are proved "
+    "equal to them: proofs/FlattenRecInst.v, proofs/InflateInst.v); what remains hand-written and tied to CPython only by "
+    "the differential runs of this harness are the primitives: str(int), int(str), urllib unquote, split('/') / '/'.join, "
+    "str.replace, Python key equality (1 == True) and dict.fromkeys",
+    "harness/props/C15.py generators/canonicalisation, lib/tocoq.py",
 ]
 ASSUMPTIONS = [
     "dict keys are pairwise distinct under Python equality (wf_obj) - guaranteed by Python's dict",
     "keys are str, int or bool exactly (no str/int subclasses such as IntEnum); leaves are compared by identity",
+    "the manifest and the leaf map handed to inflate are Python dicts (distinct keys) and no path under the prefix is both a "
+    "container and a leaf (hypotheses of C15_generated_inflate_is_model; flatten never produces such a pair - proved - and "
+    "the generated inflate is still compared with the code on such inputs)",
     "metadata serialization returns the same container entries (any order): checked here on the real to_yaml/from_yaml, "
     "proved as a codec property under C14",
 ]
@@ -873,24 +888,35 @@ def replay(ctx: Ctx, data):
 
 
 MANIFEST = {
-    "level_text": ("Machine-checked proof (Coq 8.16.1) over an executable model of flatten/inflate/_encode/_decode/"
-                   "_should_flatten_dict: for every nested list/dict/OrderedDict object of any depth and width whose dicts have "
-                   "keys distinct under Python equality, and every reordering of the container manifest and the leaf map (also "
-                   "embedded in a larger manifest), inflate(flatten(x)) = x - same container kinds, same keys with their types "
-                   "(str/int/bool), same key order, same leaves; non-flattenable dicts come back as the identical leaf; all "
-                   "produced paths are pairwise distinct; _encode is injective, '/'-free and inverted by _decode; str(int) is "
-                   "injective; split('/') inverts '/'.join on encoded components. _encode and _should_flatten_dict are "
-                   "translated from the source on every run and proved equal to the model's definitions. The hand model is tied "
-                   "to the code on every run by differential execution of the real flatten, inflate (direct, through "
-                   "SnapshotMetadata.to_yaml/from_yaml, reordered, embedded, perturbed manifests incl. error outcomes), _encode, "
-                   "_decode, _should_flatten_dict, str and int against the model inside coqc (vm_compute), and the property is "
-                   "evaluated directly on every real execution."),
-    "level_note": ("Trusted: Coq kernel + VM; hand-written model coq/model/Flatten.v, the ast translator and the differential "
-                   "harness. CPython dict/str/int, urllib unquote and json are runtime behaviour (modelled, compared, not verified); "
-                   "unquote of escapes >= 0x80 and int() of non-ASCII/underscore/whitespace forms are not modelled (never produced "
-                   "by flatten). The metadata codec is a hypothesis of the _via_metadata_partial theorem (C14's subject) and is "
-                   "exercised on the real code. Theorems are closed under the global context (no axioms)."),
-    "technique": "Coq proof (structural induction over nested containers, permutation-invariant inflate) + ast translation of "
-                 "_encode/_should_flatten_dict + vm_compute correspondence and direct oracle on the real flatten/inflate",
+    "level_text": ("Machine-checked proof (Coq 8.16.1): for every nested list/dict/OrderedDict object of any depth and width "
+                   "whose dicts have keys distinct under Python equality, and every reordering of the container manifest and the "
+                   "leaf map (also embedded in a larger manifest, also after any entry-preserving metadata codec), "
+                   "inflate(flatten(x)) = x - same container kinds, same keys with their types (str/int/bool), same key order, "
+                   "same leaves; non-flattenable dicts come back as the identical leaf; all produced paths are pairwise distinct; "
+                   "_encode is injective, '/'-free and inverted by _decode; str(int) is injective; split('/') inverts '/'.join. "
+                   "These theorems are stated over the terms that translator/gen_flatten.py regenerates from flatten.py on "
+                   "every run - _flatten, flatten, _entry_to_container, _populate_container, inflate statement by statement "
+                   "(dispatch order, entry class and key list per container, f-string paths with _encode(str(key)), dict.update "
+                   "merging, prefix filter, `prefix in flattened` shortcut, parent path by tokens.pop()/'/'.join, sorted by "
+                   "int(token), the _decode map and the keep/del loop, containers created once and populated in place through "
+                   "references in the order of container_path_to_vals), _encode and _should_flatten_dict - which are proved "
+                   "equal to the hand model the original theorems were proved about (generated flatten = model flatten for "
+                   "every object; generated inflate = model inflate, including the exception outcome, on all Python dicts). "
+                   "On every run the real flatten, inflate (direct, through SnapshotMetadata.to_yaml/from_yaml, reordered, "
+                   "embedded, perturbed manifests incl. error outcomes), _entry_to_container, _populate_container, _encode, "
+                   "_decode, _should_flatten_dict, str and int are executed against the generated terms and the hand model "
+                   "inside coqc (vm_compute), and the property is evaluated directly on every real execution."),
+    "level_note": ("Trusted: Coq kernel + VM; the ast translator with its Python vocabulary (coq/model/FlattenPy.v: ordered "
+                   "dicts, exceptions, type tests, containers as a heap with references) and the primitives of "
+                   "coq/model/Flatten.v (str/int conversion, unquote, split/join, key equality, fromkeys) - CPython runtime "
+                   "behaviour, modelled and compared on every run, not verified; unquote of escapes >= 0x80 and int() of "
+                   "non-ASCII/underscore/whitespace forms are not modelled (never produced by flatten). The metadata codec is a "
+                   "hypothesis of the _via_metadata_partial theorems (C14's subject) and is exercised on the real code. A source "
+                   "change outside the translated subset fails closed (VIOLATION ... no-failing-input-found unless the oracle "
+                   "finds an input). Theorems are closed under the global context (no axioms)."),
+    "technique": "Coq proof (structural induction over nested containers, permutation-invariant inflate; heap/reference "
+                 "semantics for the in-place population) + statement-by-statement ast translation of flatten.py with "
+                 "instantiation proofs (generated = model) + vm_compute correspondence of generated terms and hand model "
+                 "against the real code + direct oracle on the real flatten/inflate",
     "design_ref": "DESIGN.md section 5, C15",
 }
